@@ -22,6 +22,10 @@ template <> const char *Neg<sapp::Preset>::below_typed() { return "/arr0/x 1"; }
 template <> const char *Neg<sapp::Tree>::below() { return "/a/bogus 1"; }
 template <> const char *Neg<sapp::Tree>::below_typed() { return "/v1/x 0.5"; }
 template <> const char *Neg<sapp::Flat>::int_port() { return "/pi"; }
+template <> const char *Neg<sapp::Synth>::below() { return "/volume/bogus 1"; }
+template <> const char *Neg<sapp::Synth>::below_typed() { return "/osc/x 0.5"; }
+template <> const char *Neg<sapp::Synth>::int_port() { return "/volume"; }
+template <> const char *Neg<sapp::Synth>::index_beyond() { return "/osc1/x 1"; }
 template <> const char *Neg<sapp::Big>::below() { return "/text/bogus 1"; }
 template <> const char *Neg<sapp::Big>::below_typed() { return "/big0/x 1"; }
 template <> const char *Neg<sapp::Big>::int_port() { return "/big3"; }
@@ -250,6 +254,7 @@ int main(int argc, char **argv)
     run_app<sapp::Flat>(T ? 3 : 2, T ? 2 : 1, T ? 2 : 2);
     run_app<sapp::Preset>(T ? 5 : 4, T ? 2 : 1, T ? 3 : 2);
     run_app<sapp::Tree>(T ? 5 : 4, T ? 2 : 1, T ? 3 : 2);
+    run_app<sapp::Synth>(T ? 7 : 6, 0, T ? 3 : 2);
     run_app<sapp::Big>(T ? 2 : 1, T ? 1 : 0, 1);
     return vp::finish();
 }
